@@ -43,7 +43,7 @@ func statChanges(before, after run.Snapshot, paths []string) []mon.Problem {
 func c02(args []string) {
 	c := chk.New("C02", "exploration", args)
 	c.Build(false)
-	c.Rule("[changed wrapper] complete run, then the same workflow with another Prepend (different command lines, same output paths): nothing runs, nothing changes; [gathered files] a task with a joined in-port whose output exists while parts of it are computed in the same run (file placed by the user; one part deleted after a complete run): not executed, file untouched; [interrupted runs] the run is killed inside a task's finalization (hook points after a declared output was renamed, temp directory still there) and re-run in place without cleanup: outputs already at their final paths keep inode/mtime/bytes and no command of their tasks runs; [links and pass-through] histories: complete run, an intermediate output that has a consumer is moved away and linked back (relative and absolute link), run again twice: no command runs, no file appears, every entry keeps inode/mtime/bytes; a process whose out-port path is its input path ({i:in}), file there before the first run: its command never runs and the file is never touched. generated non-streaming graphs of command / Go-function processes and sources; for each graph subsets of its tasks (all subsets when <= 5 tasks, else random ones) get all their outputs pre-placed (bytes of an earlier complete run incl. audit files / arbitrary user bytes / empty files), and the history 'complete run, run again in place' (also: 4-16 independent chains that end in the sink and fan into one merging process, also a process whose out-port is declared through SetOut only; chains / two-output tasks / diamonds with outputs in nested, parent-relative and absolute directories, re-run completely and after deleting the last process's outputs; 4-16 independent chains re-run 25-60 times in place as separate processes and 60-150 times inside one process, so that every process finishes at the same moment); oracle = no start event of a skipped task, (inode, size, mtime_ns, sha256) of every pre-existing output unchanged, downstream tasks executed exactly once on the pre-existing bytes (reference evaluation), re-run executes nothing. distinct_nontrivial = distinct (graph shape, subset, content kind) with >= 1 skipped and >= 1 executed task, plus re-run histories")
+	c.Rule("[old modification times] in every second complete-run / re-run history the tools set the modification time of their outputs to the year 2001; [changed wrapper] complete run, then the same workflow with another Prepend (different command lines, same output paths): nothing runs, nothing changes; [gathered files] a task with a joined in-port whose output exists while parts of it are computed in the same run (file placed by the user; one part deleted after a complete run): not executed, file untouched; [interrupted runs] the run is killed inside a task's finalization (hook points after a declared output was renamed, temp directory still there) and re-run in place without cleanup: outputs already at their final paths keep inode/mtime/bytes and no command of their tasks runs; [links and pass-through] histories: complete run, an intermediate output that has a consumer is moved away and linked back (relative and absolute link), run again twice: no command runs, no file appears, every entry keeps inode/mtime/bytes; a process whose out-port path is its input path ({i:in}), file there before the first run: its command never runs and the file is never touched. generated non-streaming graphs of command / Go-function processes and sources; for each graph subsets of its tasks (all subsets when <= 5 tasks, else random ones) get all their outputs pre-placed (bytes of an earlier complete run incl. audit files / arbitrary user bytes / empty files), and the history 'complete run, run again in place' (also: 4-16 independent chains that end in the sink and fan into one merging process, also a process whose out-port is declared through SetOut only; chains / two-output tasks / diamonds with outputs in nested, parent-relative and absolute directories, re-run completely and after deleting the last process's outputs; 4-16 independent chains re-run 25-60 times in place as separate processes and 60-150 times inside one process, so that every process finishes at the same moment); oracle = no start event of a skipped task, (inode, size, mtime_ns, sha256) of every pre-existing output unchanged, downstream tasks executed exactly once on the pre-existing bytes (reference evaluation), re-run executes nothing. distinct_nontrivial = distinct (graph shape, subset, content kind) with >= 1 skipped and >= 1 executed task, plus re-run histories")
 	c.Assume("subsets are subsets of tasks (all outputs of a task present), as the property quantifies; partial presence is C03's subject", ".audit.json files, log/ and atime are not judged")
 	rng := c.Rand("c02")
 	ngraphs := c.Pick(14, 120)
@@ -135,7 +135,18 @@ func c02(args []string) {
 		root := c.CaseDir()
 		defer c.Drop(root)
 		if j.rerun {
-			res1 := execSpec(c, root, j.s, j.cfg, nil, false, 0)
+			var bh1 vproto.Behaviours
+			if i%2 == 1 {
+				// the tools restore an old modification time on what they write (tar x, cp -p, rsync -a): outputs older
+				// than their inputs are outputs all the same
+				bh1 = vproto.Behaviours{}
+				for _, p := range j.s.Procs {
+					if p.Kind == spec.KCmd || p.Kind == spec.KGoFunc {
+						bh1[p.Name] = map[string]string{"mtime": "old"}
+					}
+				}
+			}
+			res1 := execSpec(c, root, j.s, j.cfg, bh1, false, 0)
 			ps, hang := judgeRun(res1, j.s, j.exp0)
 			if hang != "" {
 				c.Inconclusive("first run: " + hang)
@@ -146,7 +157,7 @@ func c02(args []string) {
 				return
 			}
 			before := run.Snap(res1.Wd)
-			res2 := execSpec(c, root, j.s, j.cfg, nil, true, 1)
+			res2 := execSpec(c, root, j.s, j.cfg, bh1, true, 1)
 			if res2.Hang != "" && !strings.HasPrefix(res2.Hang, "deadlock") {
 				c.Inconclusive("re-run: " + res2.Hang)
 				return
